@@ -39,8 +39,18 @@ def _binary_op(op, lhs, rhs):
     if lhs.nvec != rhs.nvec:
         raise ValueError("Operands do not have the same number of components.")
 
+    inplace = op in ("__iadd__", "__isub__", "__imul__", "__itruediv__")
+    if inplace and any(
+        np.may_share_memory(a.values, b.values)
+        for a in lhs._xyz.values()
+        for b in rhs._xyz.values()
+    ):
+        # The components are updated one after the other: an operand that aliases
+        # one of them (v /= v.x) must keep the values it had before the update
+        rhs = rhs.copy()
+
     out = {c: getattr(xyz, op)(getattr(rhs, c)) for c, xyz in lhs._xyz.items()}
-    if op in ("__iadd__", "__isub__", "__imul__", "__itruediv__"):
+    if inplace:
         # The components have been updated in place: the vector remains the same
         # object, so that every reference to it sees the new values and unit
         return lhs
